@@ -1793,7 +1793,7 @@ func translateMain(args []string) {
 	for _, n := range failNotes {
 		fmt.Fprintf(&b, "   %s\n", quoteGo(n))
 	}
-	fmt.Fprintf(&b, "-/\nimport Hy.Base.Res\nimport Hy.Base.GoInt\nnamespace Hy.Gen.Trans%s\nopen Hy Hy.GoInt\n\n", opt.name)
+	fmt.Fprintf(&b, "-/\nimport Hy.Base.Res\nimport Hy.Base.GoInt\nset_option linter.unusedVariables false\nnamespace Hy.Gen.Trans%s\nopen Hy Hy.GoInt\n\n", opt.name)
 	for _, d := range pkgOrder {
 		c := pkgs[d]
 		for _, k := range c.order {
